@@ -31,6 +31,11 @@ STATEMENTS = [
     ('define-macro', 'metal', 'define-macro', 'm', 'x'),
     ('use-macro', 'metal', 'use-macro', 'e1', 'x'),
     ('define-slot', 'metal', 'define-slot', 's', 'x'),
+    # statement values are attribute values: character references in them are decoded the same way
+    # in every spelling
+    ('condition+entity', 'tal', 'condition', 'e1 &lt; 3', 'x'),
+    ('content+entity', 'tal', 'content', 'structure string:&lt;b&gt;&amp;', 'x'),
+    ('define+entity', 'tal', 'define', "a 'x&#59;y'", 'x'),
 ]
 URI = {'tal': TAL, 'metal': METAL, 'i18n': I18N}
 LEAK = re.compile(r'(\btal:|\bmetal:|\bi18n:|\bmeta:|xml\.zope\.org/namespaces|data-tal-|data-metal-|data-i18n-'
